@@ -9,7 +9,7 @@ pub fn props() -> Vec<Prop> {
         id: "C13",
         run: c13,
         tools: None,
-        rule: "the same call sequence (a deterministic pass that calls every VirtualFileSystem method, then seeded random histories from the C01 alphabet) is executed on Memfs directly, on Vfs::Memfs(Memfs::new()) and on Memfs::new().upcast(); every call's result and the complete hook snapshot after it must be equal. The same for Stdfs vs Vfs::Stdfs in two freshly created sandboxes (results compared after replacing the sandbox prefix, trees through std::fs). For every VfsEntry obtained (entry(), entries()) all Entry accessors on the enum are compared with the wrapped MemfsEntry/StdfsEntry extracted by pattern match, before and after follow(true)/follow(false)/follow(true). distinct_nontrivial = distinct (backend, method or accessor set, argument class, outcome class) triples.",
+        rule: "the same call sequence (a deterministic pass that calls every VirtualFileSystem method, then seeded random histories from the C01 alphabet) is executed on Memfs directly, on Vfs::Memfs(Memfs::new()) and on Memfs::new().upcast(); every call's result and the complete hook snapshot after it must be equal. The same for Stdfs vs Vfs::Stdfs in two freshly created sandboxes (results compared after replacing the sandbox prefix, trees through std::fs). For every VfsEntry obtained (entry(), entries()) all Entry accessors on the enum are compared with the wrapped MemfsEntry/StdfsEntry extracted by pattern match, before and after follow(true)/follow(false)/follow(true). distinct_nontrivial = distinct (backend, method or accessor set, argument class, outcome class) triples. Later additions: a boundary-argument pass (modes 0 / special / with type bits, empty payloads, existing targets, unclean spellings, uid/gid extremes, chowns to distinct ids); a held-builder pass (builders kept across set_cwd / executed twice); a handle visibility script (what other calls see between write / flush / drop of open handles, overlapping append handles); clone steps in the VfsEntry accessor comparison; the Stdfs comparison stops at the first divergence.",
         assumptions: &["the Stdfs half runs as uid 1000 inside a private sandbox directory; set_cwd is exercised on Memfs only (process cwd is shared by the two Stdfs runs)"],
         shards_quick: 8,
         shards_thorough: 16,
